@@ -145,6 +145,12 @@ def swapNames (sh : List Bytes) (k : Nat) : List Bytes :=
 theorem F_swap : ∀ sh ∈ shapes, ∀ k < sh.length, k + 1 < sh.length →
     good3 (nfail tbl (swapNames sh k) 0 0) = true := by decide +kernel
 
+/-- an element taken out and put back at another position: refused by the name automaton, always with
+    `ErrInvalidMetricOrder` and within the first 14 parts (no exception: the result has the length of the
+    shape, so nothing ever lands *after* a complete environmental group) -/
+theorem F_move : ∀ sh ∈ shapes, ∀ i < sh.length, ∀ j < sh.length, j ≠ i →
+    good3 (nfail tbl (Spec.insertAt (sh.eraseIdx i) j (sh.getD i [])) 0 0) = true := by decide +kernel
+
 /-- positions at which an inserted element lands after a complete environmental group -/
 def afterEnvPos (names : List Bytes) (i j : Nat) : Bool :=
   endsEnv names && (j == names.length || (i + 1 == names.length && j + 1 == names.length))
@@ -156,6 +162,10 @@ theorem F_unk : ∀ sh ∈ shapes, ∀ j < sh.length + 1, (endsEnv sh && j == sh
     j ≤ 13 ∧ nstep tbl (after (sh.take j)).1 (after (sh.take j)).2 [] = .err eOrder := by decide +kernel
 
 theorem F_trunc : ∀ sh ∈ shapes, ∀ n < sh.length, 1 ≤ n → Spec.V2.completeLengths.contains n = false →
+    (after (sh.take n)).2 ≠ 0 := by decide +kernel
+
+/-- exact version: a proper non-empty prefix of a shape that is not itself a shape ends inside a group -/
+theorem F_trunc_exact : ∀ sh ∈ shapes, ∀ n < sh.length, 1 ≤ n → sh.take n ∉ shapes →
     (after (sh.take n)).2 ≠ 0 := by decide +kernel
 
 theorem F_env : ∀ sh ∈ shapes, endsEnv sh = true →
